@@ -522,6 +522,49 @@ def selection_unit(isa):
     return unit
 
 
+def add_semantics_unit(res):
+    """P: ArchSemantics.add_semantics (real code) for kernels of ANY length: every line gets assign_src_dst and then assign_tp_lt,
+    each exactly once and for that line only (loop body obligations for an arbitrary k) - so what one instruction is costed with
+    never depends on another line being processed twice or skipped; hidden-load post-processing runs only if the model asks for it."""
+    from pyvc.engine import PathEnd
+    ex = Engine([REPO + "/" + AS])
+    fn, _ = ex.find_method("ArchSemantics", "add_semantics")
+    ex.index_loops(fn)
+    I_ = z3.IntSort()
+    N = z3.Int("klen")
+    ins = Schema("insa", ["InstructionForm"], {"line_number": ("int",)})
+    ins.fn["line_number"] = z3.Function("line_no", I_, I_)
+    hidden = z3.Bool("model_has_hidden_loads")
+    st = {"calls": []}
+
+    class Hook:
+        def on_body_start(self, ex_, env, k):
+            st["calls"] = []
+
+        def on_body_end(self, ex_, env, k):
+            c = st["calls"]
+            ok = [n for n, _ in c] == ["assign_src_dst", "assign_tp_lt"] and all(isinstance(a, SRef) for _, a in c)
+            ex_.oblige("add_semantics/each-line-gets-src_dst-then-tp_lt-once", z3.And([a.t == k for _, a in c]) if ok else z3.BoolVal(False))
+
+    ex.loop_hooks[("add_semantics", 0)] = Hook()
+    ex.invariants[("add_semantics", 0)] = lambda ex_, env, k: z3.BoolVal(True)
+    for nm in ("assign_src_dst", "assign_tp_lt"):
+        ex.abstract[nm] = (lambda nm: lambda ex_, so, a, kw: st["calls"].append((nm, a[0])))(nm)
+    ex.abstract["has_hidden_loads"] = lambda ex_, so, a, kw: SBool(hidden)
+
+    def run():
+        log = []
+        kernel = SymSeq(N, lambda i: SRef(i, ins))
+        ex.abstract["set_hidden_loads"] = lambda ex_, so, a, kw: log.append(a[0])
+        ex.extra.update(log=log, kernel=kernel)
+        return ex.call_method("ArchSemantics", "add_semantics", SObj("ArchSemantics", _machine_model=SObj("MachineModel")), [kernel])
+
+    paths = ex.explore(run, [N >= 0])
+    # the (deprecated) hidden-load post-processing changes pressures: it may only run when the model asks for it (running it is not demanded)
+    res.add_paths(paths, lambda v, p: z3.Implies(z3.BoolVal(len(p.extra["log"]) >= 1), hidden), kind="add_semantics/hidden-loads-only-if-model")
+    return res
+
+
 def units(tier):
     return [
         Unit("C08/assign_tp_lt/composition/x86", compose_unit("x86"), "Pb",
@@ -533,5 +576,6 @@ def units(tier):
         Unit("C08/assign_tp_lt/row-selection(any number of rows)/aarch64", selection_unit("aarch64"), "P", [(AS, "ArchSemantics.assign_tp_lt")]),
         Unit("C08/get_load_throughput(any number of rows)", table_units("load"), "P", [(HW, "MachineModel.get_load_throughput"), (HW, "MachineModel._match_mem_entries")]),
         Unit("C08/get_store_throughput(any number of rows)", table_units("store"), "P", [(HW, "MachineModel.get_store_throughput"), (HW, "MachineModel._match_mem_entries")]),
+        Unit("C08/add_semantics(every line processed exactly once, any kernel length)", add_semantics_unit, "P", [(AS, "ArchSemantics.add_semantics")]),
         bounded_unit("C08/composition-vs-yaml-recomputation", "c08_compose", [(AS, "ArchSemantics.assign_tp_lt"), (AS, "ArchSemantics.add_semantics"), (HW, "MachineModel.__init__")], timeout=2400),
     ]
